@@ -415,9 +415,14 @@ func (c *RootConfig) Initialize(ctx context.Context) error {
 }
 
 func (c *RootConfig) subPackages(pkgPath string) ([]string, error) {
-	pkgs, err := packages.Load(&packages.Config{
+	loadConf := &packages.Config{
 		Mode: packages.NeedName | packages.NeedFiles,
-	}, pkgPath+"/...")
+	}
+	// Discover sub-packages under the same build tags the parser will load them with.
+	if c.BuildTags != nil && *c.BuildTags != "" {
+		loadConf.BuildFlags = []string{"-tags", strings.Join(strings.Split(*c.BuildTags, " "), ",")}
+	}
+	pkgs, err := packages.Load(loadConf, pkgPath+"/...")
 	if err != nil {
 		return nil, fmt.Errorf("failed to load packages: %w", err)
 	}
